@@ -53,7 +53,7 @@ def main():
         keep = set(a.only.split(','))
         sids = [s for s in sids if s.split('-')[0] in keep or s in keep]
     # seeds that are no violation on the current tree (neutralised by a later fix commit) are skipped
-    sids = [s for s in sids if 'neutralised_by_fix' not in json.load(open(os.path.join(ROOT, 'seeded', s, 'meta.json')))]
+    sids = [s for s in sids if not ({'neutralised_by_fix', 'not_caught_by_design'} & set(json.load(open(os.path.join(ROOT, 'seeded', s, 'meta.json')))))]
     jobs = [(s, catching_prop(os.path.join(ROOT, 'seeded', s))) for s in sids]
     bad = []
     with ThreadPoolExecutor(a.jobs) as ex:
